@@ -73,6 +73,7 @@ std::vector<Ev> buildEvents()
     e.push_back({ QStringLiteral("message"), "<message from='contact@example.org/x' type='chat'><body>hi</body><request xmlns='urn:xmpp:receipts'/></message>", 0, 1 });
     e.push_back({ QStringLiteral("presence subscribe"), "<presence from='contact@example.org' type='subscribe'/>", 0, 1 });
     e.push_back({ QStringLiteral("stream error see-other-host"), "", 5, 1 });
+    e.push_back({ QStringLiteral("encrypted connection lost, client reconnects (to a server that does not encrypt yet)"), "", 6, 1 });
     return e;
 }
 
@@ -166,6 +167,7 @@ struct Exec {
     }
 
     bool lastStarttls = false;
+    bool redirectedAfterTls = false;
     QSet<QString> secretsReported;
 
     void checkSecrets(const QString &ctx)
@@ -251,6 +253,31 @@ struct Exec {
             rig.server.holdReads(false);
             absorbPlain(ctx);
             lastStarttls = false;
+        } else if (encrypted && e.special == 6) {
+            // the encrypted connection is lost in the middle of the authentication exchange; the application connects again
+            const int before = rig.server.acceptedCount();
+            rig.server.closePeer(true);
+            rig.server.pumpUntil([&] { return rig.csock()->state() == QAbstractSocket::UnconnectedState; }, 2000);
+            rig.client->connectToServer(config());
+            rig.server.pumpUntil([&] { return rig.server.acceptedCount() > before; }, 2000);
+            if (rig.server.acceptedCount() > before) {
+                encrypted = false;
+                redirectedAfterTls = true;
+                witness("reconnected_after_tls");
+            }
+            absorbPlain(ctx);
+        } else if (encrypted && e.special == 5) {
+            // see-other-host over the encrypted stream: the client reconnects in clear; what it writes there is judged again
+            const int before = rig.server.acceptedCount();
+            rig.server.write(xml);
+            // (the TLS shutdown passes through the unconnected state before the client dials the new address: only the accept counts)
+            rig.server.pumpUntil([&] { return rig.server.acceptedCount() > before; }, 1500);
+            if (rig.server.acceptedCount() > before) {
+                encrypted = false;
+                redirectedAfterTls = true;
+                witness("redirected_after_tls");
+            }
+            absorbPlain(ctx);
         } else {
             rig.server.write(xml);
             absorbPlain(ctx);
@@ -281,12 +308,24 @@ struct Exec {
     std::vector<int> enabled() const
     {
         std::vector<int> en;
-        if (!res.violations.isEmpty() || !tcpOpen || encrypted) {
+        if (!res.violations.isEmpty() || !tcpOpen) {
+            return en;
+        }
+        if (encrypted) {
+            // nothing can leak on the encrypted stream; the only way back to an unencrypted link is a redirect, after which the
+            // property must hold again although the client carries state from the encrypted connection
+            if (!redirectedAfterTls) {
+                for (int i = 0; i < int(events.size()); ++i) {
+                    if (events[size_t(i)].special == 6) {   // (a see-other-host error is rejected by the authentication manager that is active here)
+                        en.push_back(i);
+                    }
+                }
+            }
             return en;
         }
         // a stream starts with exactly one header; nothing else is parseable before it
         for (int i = 0; i < int(events.size()); ++i) {
-            if ((i < 3) != headerSent) {
+            if ((i < 3) != headerSent && events[size_t(i)].special != 6) {
                 en.push_back(i);
             }
         }
@@ -296,7 +335,7 @@ struct Exec {
     QString canon() const
     {
         QStringList cls = plainClasses;
-        return QStringLiteral("enc%1 tcp%2 hs%7 lastiq=%3 st%4 | %5 | %6").arg(encrypted).arg(tcpOpen).arg(QString::fromUtf8(lastIqId)).arg(lastStarttls).arg(cls.join(QLatin1Char(',')), rig.coreSnapshot()).arg(headerSent);
+        return QStringLiteral("enc%1 tcp%2 hs%7 rt%8 lastiq=%3 st%4 | %5 | %6").arg(encrypted).arg(tcpOpen).arg(QString::fromUtf8(lastIqId)).arg(lastStarttls).arg(cls.join(QLatin1Char(',')), rig.coreSnapshot()).arg(headerSent).arg(redirectedAfterTls);
     }
 };
 
